@@ -37,7 +37,13 @@ def _gen(task):
                     hyp2, p2 = solve.skolemize(o.hyp, p)
                     base['smt2'] = solve.to_smt2(hyp2, p2)
                     qf = [h for h in hyp2 if not solve.has_quantifier(h)]
-                    base['smt2_relaxed'] = solve.to_smt2(qf, p2) if len(qf) < len(hyp2) else None
+                    qf0 = [h for h in qf if h.get_id() not in g.math_axioms]
+                    rel = []
+                    if len(qf0) < len(qf):
+                        rel.append(solve.to_smt2(qf0, p2))      # without the axioms of sqrt/exp/log (nonlinear)
+                    if len(qf) < len(hyp2):
+                        rel.append(solve.to_smt2(qf, p2))
+                    base['smt2_relaxed'] = rel or None
                 vcs.append(base)
         covers = []
         for c in g.covers:
